@@ -35,7 +35,7 @@ pub struct Term {
 pub fn arb_term() -> impl Strategy<Value = Term> {
     let g = XferGen { max_faults: 30, aux_ops: 2, rustls_share: 8, max_streams: 3, max_total: 60_000, ..XferGen::default() };
     let kind = prop_oneof![
-        5 => (any::<bool>(), any::<bool>(), 0u32..100_000, 0u8..60).prop_map(|(c, s, code, reason_len)| TermKind::Close { client: c || !s, server: s, code, reason_len }),
+        5 => (any::<bool>(), any::<bool>(), 0u32..100_000, prop_oneof![5 => 0u8..56, 1 => 56u8..64]).prop_map(|(c, s, code, reason_len)| TermKind::Close { client: c || !s, server: s, code, reason_len }),
         2 => Just(TermKind::Blackhole),
         2 => any::<bool>().prop_map(|to_client| TermKind::Reset { to_client }),
         1 => Just(TermKind::Nothing),
@@ -79,6 +79,29 @@ fn negotiated_idle_us(x: &Xfer) -> Option<u64> {
     .filter(|&v| v > 0)
 }
 
+/// Close reasons: lengths 0..=55 literally; 56..=63 stand for reasons that do not fit a packet and have
+/// to be truncated by the sender (1100, 1190, 1250, 1400, 1452, 1500, 3000, 70000 bytes)
+fn close_reason_bytes(reason_len: u8) -> Vec<u8> {
+    let n = match reason_len {
+        0..=55 => reason_len as usize,
+        56 => 1100,
+        57 => 1190,
+        58 => 1250,
+        59 => 1400,
+        60 => 1452,
+        61 => 1500,
+        62 => 3000,
+        _ => 70_000,
+    };
+    (0..n).map(|i| b'a' + (i % 23) as u8).collect()
+}
+
+/// The reason the peer reports is the one given to close(), or - when it did not fit the packet - a
+/// prefix of it
+fn reason_matches(got: &[u8], given: &[u8]) -> bool {
+    got == given || (given.len() > 1000 && got.len() >= 900 && given.starts_with(got))
+}
+
 pub fn case(tm: &Term) -> CaseOut {
     let x = &tm.x;
     let sim = x.net.crypto == CryptoKind::Sim;
@@ -116,10 +139,12 @@ pub fn case(tm: &Term) -> CaseOut {
     let mut established_at_close: BTreeMap<usize, bool> = BTreeMap::new();
     let mut non_quiescent = false;
     let mut reset_injected_to: Option<usize> = None;
+    // path MTU estimate of each closer at the instant of close()
+    let mut close_mtu: BTreeMap<usize, u16> = BTreeMap::new();
     w.now = w.now.max(at);
     match &tm.kind {
         TermKind::Close { client, server, code, reason_len } => {
-            let reason = vec![b'x'; *reason_len as usize];
+            let reason = close_reason_bytes(*reason_len);
             let now = w.now_instant();
             for k in 0..w.conns.len() {
                 let want = if w.conns[k].side.is_client() { *client } else { *server };
@@ -140,6 +165,7 @@ pub fn case(tm: &Term) -> CaseOut {
                 amp_blocked.insert(k, !p.path_validated && p.path_total_sent + 1 > 3 * p.path_total_recvd);
                 close_info.insert(k, (3 * pto, *code as u64, reason.clone(), p.highest_space == 2));
                 established_at_close.insert(k, p.state == 1 && p.highest_space == 2);
+                close_mtu.insert(k, p.current_mtu);
             }
         }
         TermKind::Blackhole => {
@@ -253,6 +279,19 @@ pub fn case(tm: &Term) -> CaseOut {
             _ => {}
         }
     }
+    // a close datagram fits the path like every other datagram (an over-long reason is truncated)
+    for r in &w.trace {
+        if let Rec::Tx { t, conn, dgrams, .. } = r {
+            if let Some(mtu) = close_mtu.get(conn) {
+                for d in dgrams {
+                    let closes = d.pkts.iter().any(|p| p.has(|f| matches!(f, OF::ConnectionClose { .. } | OF::ApplicationClose { .. })));
+                    if closes && d.size > *mtu as usize {
+                        return CaseOut::fail("c08/close-datagram-exceeds-mtu", format!("t={t} conn {conn}: the datagram carrying CONNECTION_CLOSE is {} bytes, the path MTU estimate at close() was {mtu}", d.size));
+                    }
+                }
+            }
+        }
+    }
     // close frames from the peer connection delivered (uncorrupted) to this connection's endpoint
     let mut close_delivered: BTreeMap<usize, (bool, bool)> = BTreeMap::new(); // receiver conn -> (short seen, long seen)
     let mut close_delivered_at: BTreeMap<usize, u64> = BTreeMap::new();
@@ -278,11 +317,12 @@ pub fn case(tm: &Term) -> CaseOut {
             }
         }
     }
-    let short_dgrams: std::collections::BTreeSet<u64> = w
+    // datagram id -> highest 1-RTT packet number it carries
+    let short_dgrams: BTreeMap<u64, u64> = w
         .trace
         .iter()
         .flat_map(|r| match r {
-            Rec::Tx { dgrams, .. } => dgrams.iter().filter(|d| d.pkts.iter().any(|p| p.ty == crate::wire::PktType::Short)).map(|d| d.id).collect::<Vec<_>>(),
+            Rec::Tx { dgrams, .. } => dgrams.iter().filter_map(|d| d.pkts.iter().filter(|p| p.ty == crate::wire::PktType::Short).map(|p| p.pn).max().map(|pn| (d.id, pn))).collect::<Vec<_>>(),
             _ => vec![],
         })
         .collect();
@@ -309,7 +349,7 @@ pub fn case(tm: &Term) -> CaseOut {
             let (short_seen, long_seen) = close_delivered.get(&k).copied().unwrap_or((false, false));
             let ok = match reason {
                 ConnectionError::ApplicationClosed(ac) => {
-                    peer_close.is_some_and(|(_, code, rsn, _)| ac.error_code.into_inner() == *code && ac.reason[..] == rsn[..]) && (short_seen || !sim)
+                    peer_close.is_some_and(|(_, code, rsn, _)| ac.error_code.into_inner() == *code && reason_matches(&ac.reason, rsn)) && (short_seen || !sim)
                 }
                 ConnectionError::ConnectionClosed(cc) => {
                     // generic APPLICATION_ERROR when the peer had to close before 1-RTT keys; NO_ERROR
@@ -445,16 +485,24 @@ pub fn case(tm: &Term) -> CaseOut {
                 let (ct, dt) = (w.conns[p].closed_at.unwrap_or(0), w.conns[p].drained_at.unwrap_or(u64::MAX));
                 let pep = w.conns[p].ep;
                 let established = established_at_close.get(&p).copied().unwrap_or(false) && c.app.connected;
-                let arrivals = w
-                    .trace
-                    .iter()
-                    .filter_map(|r| match r {
-                        Rec::Rx { t, ep, dgram_id, origin_conn: Some(o), corrupted: false, injected: false, copy: 0, routed: Routed::Conn(q), .. } if *o == k && *q == p && *ep == pep && *t > ct && *t + 1 < dt && short_dgrams.contains(dgram_id) => Some(*t),
-                        _ => None,
-                    })
-                    // packets arriving at one instant are answered by one close datagram
-                    .collect::<std::collections::BTreeSet<u64>>()
-                    .len();
+                // (a delayed old datagram may have fallen out of the closer's duplicate window and is then
+                // dropped unseen: only packet numbers near the highest delivered so far count)
+                let mut hi = 0u64;
+                let mut instants = std::collections::BTreeSet::new();
+                for r in &w.trace {
+                    if let Rec::Rx { t, ep, dgram_id, origin_conn: Some(o), corrupted: false, injected: false, copy: 0, routed: Routed::Conn(q), .. } = r {
+                        if *o == k && *q == p && *ep == pep {
+                            if let Some(pn) = short_dgrams.get(dgram_id) {
+                                if *t > ct && *t + 1 < dt && *pn + 32 >= hi {
+                                    // packets arriving at one instant are answered by one close datagram
+                                    instants.insert(*t);
+                                }
+                                hi = hi.max(*pn);
+                            }
+                        }
+                    }
+                }
+                let arrivals = instants.len();
                 established && arrivals >= tm.drop_close as usize
             };
             let alive_then = alive_then && answered;
@@ -464,7 +512,7 @@ pub fn case(tm: &Term) -> CaseOut {
                 }
                 if c.closed_at.is_none() {
                     match c.app.lost_reasons.first() {
-                        Some(ConnectionError::ApplicationClosed(ac)) if ac.error_code.into_inner() == *code && ac.reason[..] == rsn[..] => {}
+                        Some(ConnectionError::ApplicationClosed(ac)) if ac.error_code.into_inner() == *code && reason_matches(&ac.reason, rsn) => {}
                         Some(ConnectionError::ConnectionClosed(_)) if !*had_1rtt || w.conns[k].c.verif_probe().highest_space < 2 || true => {}
                         other => {
                             return CaseOut::fail(
